@@ -25,6 +25,29 @@ P = {
             'leaf conditions rebuilt from state() give the same verdict.', 'DESIGN.md#c10', ''),
 }
 
+P.update({
+    'C01': (True, 'model_checking',
+            'Inductive step of every solver on the real code: from an arbitrary state satisfying the representation invariant (stored energy = objective at '
+            'each member, best = minimal member, simplex sorted) one real Step() of DE, DE2 (all draws of a focus candidate symbolic), Nelder-Mead and Powell '
+            '(Brent by contract) re-establishes the invariant, reports an evaluated point with energy = reducer(cost)+penalty at that point, never worse than '
+            'before / than the initial guess; plus the decoration stack and the fmin/fmin_powell/diffev/diffev2 return tuples. Cost, penalty and constraints '
+            'are uninterpreted functions, so every path verdict is over all cost functions.', 'DESIGN.md#c01', ''),
+    'C02': (True, 'model_checking',
+            'The raw-cost stub logs every argument it receives; for every path of the real steps (all four solvers, symbolic box, with/without constraints, '
+            'constraints that push points out, ranges installed mid-run on an arbitrary state, tight/clip modes on concrete boxes) z3 shows lo<=x<=hi for every '
+            'logged call, finite best inside the box; wrap_bounds, _clipGuessWithinRangeBoundary and SetRandomInitialPoints are closed against their contracts.',
+            'DESIGN.md#c02', ''),
+    'C03': (True, 'model_checking',
+            'Same step scenarios with an uninterpreted idempotent constraints function (pure and in-place): every logged cost argument is a fixed point of c, '
+            'the reported solution is a fixed point and its energy is the energy of that point after every step (every post-state is a stopping point); '
+            'constraints installed mid-run on an arbitrary state; mystic-generated constraints plugged into real steps.', 'DESIGN.md#c03', ''),
+    'C04': (True, 'model_checking',
+            'Per step: evaluations advance by exactly the number of raw cost calls, a real Monitor used as evaluation monitor gains exactly those (x, cost(x)) '
+            'pairs in order, one step-monitor record equal to the reported best, one callback with the current best, energy history non-increasing ending in '
+            'bestEnergy; enumerated API-call programs (Step/Set*/Finalize/Solve) keep evaluations == total cost calls and the current evaluation monitor complete.',
+            'DESIGN.md#c04', ''),
+})
+
 NOT_YET = 'check not built yet in this round (planned: DESIGN.md section 4)'
 
 
